@@ -68,6 +68,9 @@ func labClasses(res *lab.Result) []string {
 	if c.FreeSched {
 		cls = append(cls, "free-running-plugins")
 	}
+	if c.GatePluginCalls {
+		cls = append(cls, "plugin-calls-answer-at-scheduled-instants")
+	}
 	if c.GateSrcAcks {
 		cls = append(cls, "acks-taken-at-scheduled-instants")
 	}
